@@ -37,7 +37,7 @@ FIT_KINDS = ["dec_type", "rew_type", "len_dr", "len_dc", "rew_none", "rew_nan", 
              "ctx_missing", "ctx_superfluous", "ctx_1d", "ctx_type", "pf_wrong_columns", "clusters_few_rows"]
 QUERY_KINDS = ["before_fit", "q_missing", "q_1d", "q_type", "q_wrong_columns"]
 ARM_KINDS = ["add_dup", "add_none", "add_nan", "add_inf", "add_binarizer_non_ts", "add_binarizer_noncallable",
-             "rm_unknown", "rm_none"]
+             "rm_unknown", "rm_none", "add_with_prob_list", "rm_with_prob_list"]
 WS_KINDS = ["ws_nondict", "ws_int_q", "ws_q_range", "ws_keys", "ws_ragged"]
 INIT_KINDS = ["arms_not_list", "arms_none", "arms_nan", "arms_inf", "arms_dup", "lp_type", "eps_range", "eps_type",
               "np_type", "radius_zero", "k_zero", "metric_unknown", "tree_incompatible", "tree_param_unknown",
@@ -71,6 +71,12 @@ def applicable(kind, h):
         return lp == "ThompsonSampling"
     if kind == "rm_unknown":
         return bool(h._free_labels())
+    if kind == "add_with_prob_list":
+        # the positional no_nhood_prob_of_arm list has no documented meaning after an arm change: the library may
+        # accept the call (then its effect is discarded here) or reject it - a rejection must be atomic
+        return h.has_prob_list and bool(h._free_labels())
+    if kind == "rm_with_prob_list":
+        return h.has_prob_list and len(h.arms) > 1
     if kind in WS_KINDS:
         return len(h.arms) >= 1
     return True
@@ -117,6 +123,10 @@ def draw_reject(h):
         if kind == "rm_unknown":
             payload = {"arm": draw(st.sampled_from(h._free_labels()))}
         elif kind == "add_dup":
+            payload = {"arm": draw(st.sampled_from(h.arms))}
+        elif kind == "add_with_prob_list":
+            payload = {"arm": draw(st.sampled_from(h._free_labels()))}
+        elif kind == "rm_with_prob_list":
             payload = {"arm": draw(st.sampled_from(h.arms))}
         elif kind.startswith("add_binarizer"):
             free = h._free_labels()
@@ -277,8 +287,10 @@ def reject_call(mab, kind, payload, cfg):
         else:
             q = copy.deepcopy(p["contexts"])
         return (lambda: f(q)), [q]
-    if kind == "add_dup":
+    if kind in ("add_dup", "add_with_prob_list"):
         return (lambda: mab.add_arm(p["arm"])), []
+    if kind == "rm_with_prob_list":
+        return (lambda: mab.remove_arm(p["arm"])), []
     if kind == "add_none":
         return (lambda: mab.add_arm(None)), []
     if kind == "add_nan":
